@@ -72,6 +72,10 @@ impl ValueStack {
     /// Returns Nil if the stack is empty
     #[inline]
     pub fn pop(&mut self) -> Value {
+        if self.count == 0 {
+            // slots at or above `count` may hold stale values (clear_until, pop_n)
+            return Value::Nil;
+        }
         let count = self.count.saturating_sub(1);
         let value = self.data[count];
         self.count = count;
